@@ -13,7 +13,8 @@ pub const ID_GLUE_ADD: &str = "C06-glue-advance-zero-stretch-order";
 pub const ID_INTERNAL_DIMEN: &str = "C06-internal-dimen-not-range-checked";
 pub const ID_CLAMP_SIGN: &str = "C06-internal-unit-overflow-clamp-sign";
 pub const ID_FIL_CARRY: &str = "C06-fil-fraction-carry-unchecked";
-pub const DEVIATION_IDS: [&str; 5] = [ID_MULT, ID_GLUE_ADD, ID_INTERNAL_DIMEN, ID_CLAMP_SIGN, ID_FIL_CARRY];
+pub const ID_FIL_L_SPACE: &str = "C06-fil-l-space";
+pub const DEVIATION_IDS: [&str; 6] = [ID_MULT, ID_GLUE_ADD, ID_INTERNAL_DIMEN, ID_CLAMP_SIGN, ID_FIL_CARRY, ID_FIL_L_SPACE];
 
 /// Panic signatures for this property: `panic@<repo file>::* [message]`.
 ///
@@ -349,8 +350,22 @@ impl Runner {
             let mut mach = m::Machine::new(toks, pre.clone(), dev);
             mach.do_register_command()?;
             let rest = mach.remaining();
+            let mut leftover = String::new();
             if rest != [m::Tok::Cs("relax".into())] {
-                return Err(m::Ood("tokens left over after the statement".into()));
+                // Under the deviation that ends a fil unit at a blank, the rest of the unit stays behind; when that is
+                // nothing but characters, the engine typesets them before the read-back and the prediction is complete.
+                let chars_only = dev.fil_l_no_blank_skip
+                    && rest.last() == Some(&m::Tok::Cs("relax".into()))
+                    && rest[..rest.len() - 1].iter().all(|t| matches!(t, m::Tok::Letter(_) | m::Tok::Other(_) | m::Tok::Space));
+                if !chars_only {
+                    return Err(m::Ood("tokens left over after the statement".into()));
+                }
+                for t in &rest[..rest.len() - 1] {
+                    match t {
+                        m::Tok::Letter(c) | m::Tok::Other(c) => leftover.push(*c as char),
+                        _ => leftover.push(' '),
+                    }
+                }
             }
             Ok(m::StatementResult {
                 regs: mach.regs.clone(),
@@ -358,6 +373,7 @@ impl Runner {
                 ambiguous: mach.arith.ambiguous,
                 fired: mach.fired,
                 seen: mach.seen.clone(),
+                leftover,
             })
         };
         let tex = match run_model(m::Deviations::default()) {
@@ -409,6 +425,17 @@ impl Runner {
                 }));
             }
             return observed.fatal.is_none();
+        }
+        // ---- C06-fil-l-space with consequences outside the model: the engine ended a fil unit at a blank and what is left
+        // of the statement is more than characters (a `minus` part, a register, ...), which it then *executes*. The
+        // deviation model cannot predict that; while the finding is listed the case is skipped and counted. (Cases
+        // whose left-over is characters only are predicted exactly and attributed below.)
+        if tex.fired & 32 != 0 {
+            let dev = m::Deviations::from_mask(32);
+            if matches!(run_model(dev), Err(m::Ood(ref why)) if why.starts_with("tokens left over")) {
+                obs.skip("hits-C06-fil-l-space(rest-of-statement-executed,not-modelled)");
+                return observed.fatal.is_none();
+            }
         }
         // ---- deviation models: smallest set of switched rules that explains the observation
         let mut masks: Vec<u32> = (1..(1 << m::N_DEVIATIONS)).collect();
@@ -470,8 +497,17 @@ fn compare(model: &m::StatementResult, obs: &Observed, target: Target) -> Vec<&'
     if canonical(&model.regs) != canonical(&obs.regs) {
         v.push("register-value");
     }
-    if m::the_register(&model.regs, target.kind, target.reg) != obs.out {
-        v.push("the-text");
+    let the = m::the_register(&model.regs, target.kind, target.reg);
+    if model.leftover.is_empty() {
+        if the != obs.out {
+            v.push("the-text");
+        }
+    } else {
+        // left-over characters are typeset before the read-back; inter-word spacing is not part of the prediction
+        let squeeze = |s: &str| s.chars().filter(|c| *c != ' ').collect::<String>();
+        if squeeze(&format!("{}{the}", model.leftover)) != squeeze(&obs.out) {
+            v.push("the-text");
+        }
     }
     if model.errors.len() != obs.errors.len() {
         v.push("error-count");
